@@ -4,10 +4,10 @@ from __future__ import annotations
 import ast as _ast
 
 from ..anchors import SIMPLE as SIMPLE_NAMES
-from ..common import OPAQUE, all_conds, conds_at, mro_methods, nshow, outer_field, paths
+from ..common import OPAQUE, all_conds, conds_at, mro_methods, nshow, outer_field, paths, true_atoms
 from ..expr import C, SELF, canon, show, strip_epochs, walk
 from ..model import AnalysisError
-from .C14 import ARRAYS as QARRAYS, GEOMETRY, geometry_writers, quotient_counter_rules
+from .C14 import ARRAYS as QARRAYS, GEOMETRY, donor_of, geometry_writers, quotient_counter_rules
 
 EXPL = ("THIN SLICE.  Decided: (a) elements_added moves by +1 on every non-raising path of _add, by -1 on every mutating path of "
         "_remove_element and not at all on the absent path, and is reset with the arrays; (b) wrap-around: every index used on "
@@ -216,11 +216,22 @@ def geometry_lemma(prog, rep):
                 elif v[0] == "new" and v[1] == "Bitarray":
                     e = news.get(v) or next((e for o, e in news.items() if o[:3] == v[:3]), None)
                     length = canon(strip_epochs(e.args[0])) if e is not None and e.args else None
-                elif v[0] == "f" and v[2] == k and v[1] != SELF:
-                    # storage adopted from another filter: that filter's own invariant gives the length 1 << (its quotient now)
-                    if q != ("f", v[1], "_q", 0):
-                        bad = bad or (f"{k} adopted from {nshow(v[1])}, _q = {nshow(q)}",
-                                      f"{f.src_name} takes over {k} of {nshow(v[1])} but sets its own quotient to {nshow(q)} instead of that filter's quotient at that moment: "
+                elif donor_of(v, k) is not None:
+                    # storage adopted from another filter (itself, or a copy of it): that filter's own invariant gives the length
+                    # 1 << (its quotient now) - which must be the receiver's quotient, by assignment or by a test the path has made
+                    dn = donor_of(v, k)
+                    same_q = q == ("f", dn, "_q", 0) or ("_q" not in written and any(
+                        a_ in (("cmp", "==", ("f", SELF, "_q", 0), ("f", dn, "_q", 0)), ("cmp", "==", ("f", dn, "_q", 0), ("f", SELF, "_q", 0)))
+                        for a_ in true_atoms(p)))
+                    from ..expr import root_of
+                    if root_of(dn)[0] == "p" and not any(a_ in (("cmp", "==", ("f", SELF, "_elements_added", 0), C(0)), ("un", "not", ("f", SELF, "_elements_added", 0)))
+                                                         for a_ in true_atoms(p)):
+                        bad = bad or (f"{k} taken over from {nshow(dn)} by a filter that may hold elements",
+                                      f"{f.src_name} replaces {k} by that of its argument on a path that has not established that the receiver is empty "
+                                      "(elements_added == 0): whatever the receiver held is gone")
+                    if not same_q:
+                        bad = bad or (f"{k} adopted from {nshow(dn)}, _q = {nshow(q)}",
+                                      f"{f.src_name} takes over {k} of {nshow(dn)} but sets its own quotient to {nshow(q)} instead of that filter's quotient at that moment: "
                                       "if the other filter has resized itself meanwhile, the arrays are laid out for a different quotient than the receiver believes")
                     continue
                 if length is None or length not in (size, canon(fin["_size"])):
@@ -353,6 +364,15 @@ def check(prog, rep, tier):
                  and strip_epochs(c.atom)[1] in ("==", "!=", "is", "isnot")
                  and ((strip_epochs(c.atom)[1] in ("==", "is")) == c.truth) and strip_epochs(c.atom)[2][3][1:] == args]
         if not guard:
+            # ... or the quotient's occupied bit is known to be clear: no element of that quotient is stored at all (the lookup's own first test)
+            for c in p.conds[:adds[0].ncond]:
+                a_ = strip_epochs(c.atom)
+                if a_[0] == "cmp" and a_[1] in ("==", "!=") and a_[3] in (C(0), C(1)) and a_[2][0] == "ret" and a_[2][1].endswith("Bitarray.check_bit") \
+                        and len(a_[2][3]) == 2 and a_[2][3][0] == ("f", SELF, "_is_occupied", 0) and a_[2][3][1] == args[0]:
+                    is_one = ((a_[1] == "==") == c.truth) == (a_[3] == C(1))
+                    if not is_one:
+                        guard = [c]
+        if not guard:
             rep.bad("C04.no-duplicate", f"{CTX}.add_alt", "_add without the containment test", "an element is added without checking that it is not already stored: the stored hashes can contain duplicates", adds[0].where())
             okd = False
     callers = set()
@@ -427,6 +447,18 @@ def check(prog, rep, tier):
                and strip_epochs(c.atom)[2] == ("ret", "Bitarray.check_bit", "S", ()) or
                (not c.loops and strip_epochs(c.atom)[0] == "cmp" and strip_epochs(c.atom)[2][0] == "ret" and strip_epochs(c.atom)[2][1].endswith("Bitarray.check_bit")
                 and strip_epochs(c.atom)[2][3] == (("f", SELF, "_is_occupied", 0), ("p", "q")) and strip_epochs(c.atom)[3] == C(0))]
+        if not occ:
+            # the test may have been hoisted into the callers: then EVERY call of the lookup must be made under is_occupied[<its q>] == 1
+            unguarded = _unguarded_lookup_calls(prog, cl)
+            if unguarded is not None and not unguarded:
+                continue
+            if unguarded:
+                g_, e_ = unguarded[0]
+                rep.bad("C04.lookup-within-run", f"{CTX}.{g_.src_name}", "lookup called without the occupied test",
+                        f"{g_.src_name} calls the lookup on a path that has not established is_occupied[q] == 1, and the lookup itself no longer tests it: for a quotient with no run "
+                        "the scan lands in a foreign run and an equal remainder there is mistaken for the key (a removal deletes another key's entry)", e_.where())
+                okl = False
+                break
         if not occ or ((strip_epochs(occ[0].atom)[1] == "==") == occ[0].truth):
             rep.bad("C04.lookup-within-run", f"{CTX}._contained_at_loc", "hit without the occupied test",
                     "a hit is reported on a path that has not established is_occupied[q] == 1: for a quotient with no run the scan lands in a foreign run and an equal remainder there is "
@@ -564,6 +596,7 @@ def check(prog, rep, tier):
         rep.bad("C04.reinsert-all", f"{CTX}.merge", "merge loop", "merge does not add every hash yielded by second.hashes()", mg.where())
     metadata_definition_rule(prog, rep)
     scan_start_rule(prog, rep)
+    removal_walks_rule(prog, rep)
 
 
 def _continues_only_on_continuation(prog, cl, hit_path) -> bool:
@@ -685,6 +718,126 @@ def _pred_value(prog, name, arg):
     par = ("p", g.params[1])
     return mapx(strip_epochs(ps[0].exit[1]), lambda n_: arg if n_ == par else None)
 
+
+
+def _unguarded_lookup_calls(prog, cl):
+    """[(function, call event)] for the calls of the lookup `cl` made on a path that has not established is_occupied[<first argument>] == 1;
+    None when the lookup is not called from any method (nothing to go by)"""
+    calls, bad = 0, []
+    # private routines that call the lookup are judged inside their callers (looked through), where a hoisted test would be
+    def calls_lookup(g):
+        return any(isinstance(n, _ast.Attribute) and n.attr == cl.src_name for n in _ast.walk(g.node))
+    helpers = tuple(sorted(g.src_name for g in mro_methods(prog, CTX) if g is not cl and g.src_name.startswith("_") and not g.src_name.endswith("__") and calls_lookup(g)))
+    for g in mro_methods(prog, CTX):
+        if g is cl or g.src_name in helpers:
+            continue
+        for p in paths(prog, CTX, g, max_states=20000, force_inline=helpers):
+            for e in p.events:
+                if e.kind != "call" or e.target is not cl or not e.args:
+                    continue
+                calls += 1
+                q = strip_epochs(e.args[0])
+                ok = False
+                for c in p.conds[:e.ncond]:
+                    a = strip_epochs(c.atom)
+                    bit = None
+                    if a[0] == "cmp" and a[1] in ("==", "!=") and a[3] in (C(0), C(1)):
+                        bit, val = a[2], ((a[1] == "==") == c.truth) == (a[3] == C(1))  # val: "the bit is 1"
+                        if a[3] == C(0):
+                            val = ((a[1] == "==") == c.truth) is False
+                    elif a[0] in ("ret", "call"):
+                        bit, val = a, c.truth
+                    if bit is not None and bit[0] == "ret" and bit[1].endswith("Bitarray.check_bit") and len(bit[3]) == 2 \
+                            and bit[3][0] == ("f", SELF, "_is_occupied", 0) and bit[3][1] == q and val:
+                        ok = True
+                if not ok and not any(x[1] is e.node for x in bad):
+                    bad.append((g, e))
+    return None if not calls else bad
+
+
+def removal_walks_rule(prog, rep):
+    """the removal routine walks the table cyclically: in a table with no empty slot a walk whose only exits read the metadata bits
+    (cluster start / empty) does not end once the routine itself has overwritten the marker it is looking for - the element removed may
+    BE the cluster start - so such a walk must also stop at an index (the cluster's own start, found before anything was written).
+    And when a walk did end at that index, the pass that re-marks the moved elements must still run"""
+    rep.rule("C04.remove-terminates", "in _remove_element a cyclic walk that follows metadata stores is bounded by an index comparison, and a walk that ended at that bound is followed by the re-marking pass", floor=2)
+    f = prog.method(CTX, "_remove_element")
+    ps = [p for p in paths(prog, CTX, f, max_states=20000)]
+    rep.analysed(f, CTX, len(ps))
+    # while loops of the routine (and of helpers looked through), by loop id
+    loops = {}
+    mod = f.module
+    for n in _ast.walk(mod.tree if hasattr(mod, "tree") else _ast.parse(prog.sources[mod.relpath])):
+        if isinstance(n, _ast.While):
+            loops[(n.lineno, n.col_offset)] = n
+
+    def meta_store(e):
+        if e.kind == "setelem":
+            return outer_field(e.cont) in ARRAYS
+        if e.kind == "call" and e.name in ("__setitem__", "set_bit", "clear_bit") and e.d.get("recv") is not None:
+            r = strip_epochs(e.recv)
+            return r[0] == "f" and r[2] in ARRAYS
+        return False
+
+    def reads_meta(a):
+        return any((n[0] == "f" and n[2] in ARRAYS) or (n[0] == "ret" and ("check_bit" in n[1] or "_is_" in n[1])) for n in walk(a))
+
+    def index_cmp(a):
+        return a[0] == "cmp" and a[1] in ("!=", "==", "<", "<=", ">", ">=") and not reads_meta(a) and \
+            all(any(n[0] == "hv" or n[0] == "p" for n in walk(x)) for x in (a[2], a[3]))
+    lids = sorted({l for p in ps for c in p.conds for l in c.loops} | {l for p in ps for e in p.events for l in e.loops})
+    judged = 0
+    bounded_exits = []  # (path, index of the exit condition) where a walk ended at its index bound
+    for lid in lids:
+        try:
+            pos = lid.rsplit("@", 1)[1]
+            key = tuple(int(x) for x in pos.split(":"))
+        except Exception:
+            continue
+        W = loops.get(key)
+        if W is None:
+            continue  # a for loop (bounded by its range)
+        tnodes = {id(n) for n in _ast.walk(W.test)}
+        atoms = [(p, i, c) for p in ps for i, c in enumerate(p.conds) if id(c.node) in tnodes]
+        if not atoms:
+            continue
+        has_meta = any(reads_meta(strip_epochs(c.atom)) for _, _, c in atoms)
+        has_bound = any(index_cmp(strip_epochs(c.atom)) for _, _, c in atoms)
+        if not has_meta:
+            continue
+        judged += 1
+        stores = None
+        for p in ps:
+            first = min([i for (q, i, c) in atoms if q is p], default=None)
+            if first is None:
+                continue
+            for e in p.events:
+                if meta_store(e) and (lid in e.loops or e.ncond <= first):
+                    stores = stores or e
+        if stores is not None and not has_bound:
+            rep.bad("C04.remove-terminates", f"{CTX}._remove_element", f"walk at line {W.lineno} has no index bound",
+                    f"the walk `while {_ast.unparse(W.test)}` leaves only through the metadata bits, and the routine has stored into them by then ({stores.brief()[:80]}): "
+                    "when the table has no empty slot and the element removed is the cluster start, the marker the walk looks for is gone and it never ends "
+                    "(quotient 3, eight hashes of one quotient, remove the smallest: remove() does not return)", f.where(W))
+        else:
+            rep.ok("C04.remove-terminates", f"walk at line {W.lineno}: " + ("bounded by an index comparison" if has_bound else "no metadata store precedes it"))
+        if has_bound:
+            for (p, i, c) in atoms:
+                a = strip_epochs(c.atom)
+                if index_cmp(a) and not c.loops and ((a[1] == "!=" and not c.truth) or (a[1] == "==" and c.truth)) and p.exit and p.exit[0] == "return":
+                    bounded_exits.append((p, i))
+    if bounded_exits:
+        # the pass that re-marks the elements which moved into their own slot: some loop body with metadata stores after the bounded exit
+        ok = any(any(meta_store(e) and e.loops and e.ncond > i for e in p.events) for (p, i) in bounded_exits)
+        if ok:
+            rep.ok("C04.remove-terminates", "a walk that ended at the cluster's own start is followed by a pass over the cluster that stores metadata")
+        else:
+            p0 = bounded_exits[0][0]
+            rep.bad("C04.remove-terminates", f"{CTX}._remove_element", "no re-marking pass after a whole-table walk",
+                    "when the shifting walk ends at the cluster's own start (the cluster fills the whole table) no later loop stores metadata on any path: the elements that "
+                    "moved into their own slot stay marked as shifted, and later look-ups, removals and hashes() decode the table wrongly", f.where())
+    if not judged:
+        raise AnalysisError("anchor vanished: _remove_element has no cyclic walk over the metadata bits")
 
 def scan_start_rule(prog, rep):
     """hashes() decodes the table from a start slot: the walk must not begin in the middle of a cluster"""
@@ -808,6 +961,32 @@ from ..selftest import Mutant, del_stmt, insert_stmt, replace_expr, replace_stmt
 
 _Q = "quotientfilter/quotientfilter.py"
 MUTANTS = [
+    Mutant("occupied test hoisted from the lookup into check_alt, add_alt and remove_alt (same behaviour)", _Q, seq(
+        del_stmt("QuotientFilter", "_contained_at_loc", "if self._is_occupied[q] == 0"),
+        replace_stmt("QuotientFilter", "check_alt", "return not self._contained_at_loc(", "if self._is_occupied[key_quotient] == 0:\n    return False\nreturn not self._contained_at_loc(key_quotient, key_remainder) == -1"),
+        replace_expr("QuotientFilter", "add_alt", "self._contained_at_loc(key_quotient, key_remainder) == -1", "self._is_occupied[key_quotient] == 0 or self._contained_at_loc(key_quotient, key_remainder) == -1"),
+        replace_stmt("QuotientFilter", "remove_alt", "self._remove_element(key_quotient, key_remainder)", "if self._is_occupied[key_quotient] == 1:\n    self._remove_element(key_quotient, key_remainder)")), expect="silent"),
+    Mutant("occupied test hoisted from the lookup into check_alt and add_alt only: removal scans a foreign run", _Q, seq(
+        del_stmt("QuotientFilter", "_contained_at_loc", "if self._is_occupied[q] == 0"),
+        replace_stmt("QuotientFilter", "check_alt", "return not self._contained_at_loc(", "if self._is_occupied[key_quotient] == 0:\n    return False\nreturn not self._contained_at_loc(key_quotient, key_remainder) == -1"),
+        replace_expr("QuotientFilter", "add_alt", "self._contained_at_loc(key_quotient, key_remainder) == -1", "self._is_occupied[key_quotient] == 0 or self._contained_at_loc(key_quotient, key_remainder) == -1")), rule="C04.lookup-within-run"),
+    Mutant("elements_added bookkeeping moved from _remove_element into remove_alt, acting on its answer (same behaviour)", _Q, seq(
+        replace_stmt("QuotientFilter", "remove_alt", "self._remove_element(key_quotient, key_remainder)", "if self._remove_element(key_quotient, key_remainder):\n    self._elements_added -= 1"),
+        replace_stmt("QuotientFilter", "_remove_element", "self._elements_added -= 1", "pass"),
+        replace_stmt("QuotientFilter", "_remove_element", "self._elements_added -= 1", "return True"),
+        insert_stmt("QuotientFilter", "_remove_element", "return True", at_end=True)), expect="silent"),
+    Mutant("elements_added bookkeeping moved into remove_alt, but the slow path answers None", _Q, seq(
+        replace_stmt("QuotientFilter", "remove_alt", "self._remove_element(key_quotient, key_remainder)", "if self._remove_element(key_quotient, key_remainder):\n    self._elements_added -= 1"),
+        replace_stmt("QuotientFilter", "_remove_element", "self._elements_added -= 1", "pass"),
+        replace_stmt("QuotientFilter", "_remove_element", "self._elements_added -= 1", "return True")), rule="C04.counter"),
+    Mutant("D14 re-introduced: the shifting walk of _remove_element loses its index bound", _Q,
+           replace_expr("QuotientFilter", "_remove_element", "next_idx != min_idx and (not self._is_cluster_start(next_idx)) and (not self._is_empty_element(next_idx))",
+                        "not self._is_cluster_start(next_idx) and (not self._is_empty_element(next_idx))"), rule="C04.remove-terminates"),
+    Mutant("D14 half re-introduced: the re-marking pass is `while min_idx != next_idx` again (skipped when the cluster fills the table)", _Q,
+           replace_stmt("QuotientFilter", "_remove_element", "for _ in range(", "while min_idx != next_idx:\n    if self._is_occupied[min_idx] == 1:\n        queue.append(min_idx)\n    if self._is_run_start(min_idx) == 1:\n        cur_quot = queue.pop(0)\n    if cur_quot == min_idx:\n        self._is_continuation[min_idx] = 0\n        self._is_shifted[min_idx] = 0\n        self._is_occupied[min_idx] = 1\n    min_idx = (min_idx + 1) & self.__mod_size"), rule="C04.remove-terminates"),
+    Mutant("the index bound of the shifting walk written the other way round (same meaning)", _Q,
+           replace_expr("QuotientFilter", "_remove_element", "next_idx != min_idx and (not self._is_cluster_start(next_idx)) and (not self._is_empty_element(next_idx))",
+                        "min_idx != next_idx and (not self._is_cluster_start(next_idx)) and (not self._is_empty_element(next_idx))"), expect="silent"),
     Mutant("remainder mask cached by the constructor only (stale after resize)", _Q,
            seq(insert_stmt("QuotientFilter", "__init__", "self._rmask = (1 << (32 - quotient)) - 1", after="self.__set_params(quotient, auto_expand, hash_function)"),
                replace_expr("QuotientFilter", "check_alt", "(1 << self._r) - 1", "self._rmask")), rule="C04.geometry-lemma"),
